@@ -56,6 +56,8 @@ pub enum Op {
     },
     Withdraw { lp: u128 },
     Swap { from: usize, to: usize, amount: u128, max_spread: Option<String>, belief: Option<String> },
+    /// a native-offer swap with a stray coin of a foreign denom attached (`first`: it sorts before every pool denom)
+    SwapStray { from: usize, to: usize, amount: u128, stray: u128, first: bool },
     Collect,
     Ramp { future_a: u64, future_block: u64 },
     RoundTrip { from: usize, to: usize, amount: u128 },
@@ -102,6 +104,8 @@ pub struct Pool3 {
     pub model: Model,
     pub collector_now: String,
     pub perm_next: std::cell::Cell<u8>,
+    /// (amount, sorts first) of the stray coin the next native-offer swap message carries
+    pub stray_next: std::cell::Cell<Option<(u128, bool)>>,
     /// scripted steps to emit before anything else
     pub queue: Vec<Step>,
 }
@@ -361,7 +365,16 @@ impl Pool3 {
             AssetInfo::NativeToken { denom } => wasm_exec(
                 &self.trio,
                 &trio::ExecuteMsg::Swap { offer_asset: self.asset(from, amount), ask_asset: self.assets[to].clone(), belief_price: bp, max_spread: ms, to: None },
-                if amount > 0 { vec![coin(amount, denom)] } else { vec![] },
+                {
+                    let mut f = if amount > 0 { vec![coin(amount, denom)] } else { vec![] };
+                    if let Some((x, first)) = self.stray_next.get() {
+                        if x > 0 {
+                            f.push(coin(x, if first { "a0junk" } else { "zzjunk" }));
+                            f.sort_by(|a: &Coin, b: &Coin| a.denom.cmp(&b.denom));
+                        }
+                    }
+                    f
+                },
             ),
             AssetInfo::Token { contract_addr } => wasm_exec(
                 contract_addr,
@@ -478,7 +491,7 @@ impl Scenario for Pool3 {
         let n = cfg.n_users;
         let mut bals: Vec<(&str, Vec<Coin>)> = vec![];
         for u in USERS.iter().take(n) {
-            let mut cs = vec![coin(1_000_000, "ujunk")];
+            let mut cs = vec![coin(1_000_000, "ujunk"), coin(1_000_000, "a0junk"), coin(1_000_000, "zzjunk")];
             for i in 0..3 {
                 if cfg.kinds[i] == Kind::Native {
                     cs.push(coin(cfg.user_funds, denoms[i]));
@@ -526,6 +539,7 @@ impl Scenario for Pool3 {
             fee18: [dec_atomics(&cfg.fees[0]), dec_atomics(&cfg.fees[1]), dec_atomics(&cfg.fees[2])],
             blocks: 0,
             perm_next: std::cell::Cell::new(0),
+            stray_next: std::cell::Cell::new(None),
             queue: vec![],
             model: Model { amp0: cfg.amp, amp1: cfg.amp, h0: h, h1: h, ..Default::default() },
             collector_now: COLLECTOR.to_string(),
@@ -621,7 +635,11 @@ impl Scenario for Pool3 {
                     } else {
                         (match rng.below(4) { 0 => None, 1 => Some("0.01".to_string()), _ => Some("0.5".to_string()) }, None)
                     };
-                    Op::Swap { from, to, amount, max_spread, belief }
+                    if matches!(self.assets[from], AssetInfo::NativeToken { .. }) && rng.chance(1, 12) {
+                        Op::SwapStray { from, to, amount, stray: *rng.pick(&[1u128, 7, 1000, 999_999]), first: rng.chance(2, 3) }
+                    } else {
+                        Op::Swap { from, to, amount, max_spread, belief }
+                    }
                 }
             }
             3 => Op::Collect,
@@ -1003,7 +1021,9 @@ fn do_provide(s: &mut Pool3, ctx: &mut Ctx, actor: usize, amounts: [u128; 3], sl
                     let emu = d1 > d0 && d0 > U1024::ZERO && w(before.share) * (d1 - d0) / d0 == w(minted);
                     if emu && small {
                         known = Some("D15");
-                    } else if emu && imbalance_dust(&before.reserves, 0) > 0 && (rhs - lhs) * U1024::from(10_000u32) < rhs {
+                    } else if emu && (imbalance_dust(&before.reserves, 0) > 0 || imbalance_dust(&after.reserves, 0) > 0) && (rhs - lhs) * U1024::from(10_000u32) < rhs {
+                        // (the solver call that loses precision is the one over the POST-deposit reserves: a one-sided
+                        // deposit that itself makes the pool extremely imbalanced is the same case)
                         known = Some("D18");
                     }
                 }
@@ -1101,6 +1121,13 @@ pub fn apply(s: &mut Pool3, step: &Step, ctx: &mut Ctx) {
     let actor = step.actor % s.cfg.n_users;
     let who = s.user(actor);
     match &step.op {
+        Op::SwapStray { from, to, amount, stray, first } => {
+            ctx.probe("swap_with_a_stray_coin_attached");
+            let have = s.app.wrap().query_balance(s.user(actor), if *first { "a0junk" } else { "zzjunk" }).map(|c| c.amount.u128()).unwrap_or(0);
+            s.stray_next.set(Some(((*stray).min(have), *first)));
+            do_swap(s, ctx, actor, *from, *to, *amount, &Some("0.5".to_string()), &None, step.fault, "swap_with_stray_coin");
+            s.stray_next.set(None);
+        }
         Op::Swap { from, to, amount, max_spread, belief } => {
             do_swap(s, ctx, actor, *from, *to, *amount, max_spread, belief, step.fault, "swap");
         }
